@@ -201,7 +201,7 @@ def run(tier):
     res.assumptions = ["LRA *values* are not part of the compared state (they legitimately depend on the pivoting history); bounds, distances, domains and literal values are",
                        "a main network may know more than its twin (sound learnt clauses) or less (theory propagation is incomplete and depends on the pivoting history); the two must never contradict each other, and nothing assigned at root level may ever be lost"]
     exes = [build.driver("dbg", "net_drv"), build.driver("rel", "net_drv")]
-    total = 2400 if tier == "quick" else 20000
+    total = 2400 if tier == "quick" else 80000
     per = 50 if tier == "quick" else 200
     common.pmap(lra.work, [(exes, s + 300000, per, True, PID) for s in range(0, total, per)], res)
     common.pmap(dl_work, [(exes, s + 300000, per) for s in range(0, total, per)], res)
